@@ -300,3 +300,135 @@ func (c *codec) junkTail(buf, in []byte) ([]byte, bool) {
 	}
 	return res, true
 }
+
+// ---- explainability of a parse result on junk ------------------------------------------------
+//
+// For ill-formed input the property does not say WHICH sequences a parser still decodes, but every
+// reading of it has the parser copy input and replace escapes — nothing else. So an output must
+// be explainable as a left-to-right rewriting of the input in which every step either copies one
+// byte verbatim or replaces one escape-LIKE unit (the codec's prefix followed by the codec's number
+// of digit characters, digits of either case, any value; for Utf16 also a high+low pair of units)
+// by what it denotes. Units whose value denotes nothing (octal above 0377, code points above
+// U+10FFFF, surrogate code points) may be replaced by any 1..4 bytes. Whatever is not such a unit —
+// text, truncated escapes, sequences with a non-digit in a digit position — can only be copied.
+// This is deliberately liberal (lower-case digits, any skipping policy, any treatment of
+// out-of-range values are all explainable) and still refuses invented or dropped bytes.
+
+// unitLike recognises prefix + digits at the start of p. ok2 = the value is meaningful.
+func (c *codec) unitLike(p []byte) (v uint32, meaningful, ok bool) {
+	w := c.width()
+	if len(p) < w {
+		return 0, false, false
+	}
+	for k := 0; k < len(c.prefix); k++ {
+		if p[k] != c.prefix[k] {
+			return 0, false, false
+		}
+	}
+	meaningful = true
+	for k := len(c.prefix); k < w; k++ {
+		ch := p[k]
+		var d uint32
+		switch {
+		case ch >= '0' && ch <= '9':
+			d = uint32(ch - '0')
+		case c.base == 16 && ch >= 'A' && ch <= 'F':
+			d = uint32(ch-'A') + 10
+		case c.base == 16 && ch >= 'a' && ch <= 'f':
+			d = uint32(ch-'a') + 10
+		default:
+			return 0, false, false
+		}
+		if d >= c.base {
+			meaningful = false
+		}
+		v = v*c.base + d
+	}
+	return v, meaningful, true
+}
+
+// greedyDecode decodes every Format-shaped escape from left to right and copies everything else.
+func (c *codec) greedyDecode(dst, in []byte) []byte {
+	dst = dst[:0]
+	for i := 0; i < len(in); {
+		if in[i] == '\\' {
+			if n, v, ok := c.matchEscape(in[i:]); ok {
+				if c.unicode {
+					dst = utf8.AppendRune(dst, rune(v))
+				} else {
+					dst = append(dst, byte(v))
+				}
+				i += n
+				continue
+			}
+		}
+		dst = append(dst, in[i])
+		i++
+	}
+	return dst
+}
+
+func (c *codec) explainable(in, out []byte) bool {
+	n, m := len(in), len(out)
+	// reach[j] for the current i; rolling over i needs look-ahead of up to 2 widths, so keep the table
+	reach := make([][]bool, n+1)
+	for i := range reach {
+		reach[i] = make([]bool, m+1)
+	}
+	reach[0][0] = true
+	w := c.width()
+	var enc [4]byte
+	for i := 0; i <= n; i++ {
+		for j := 0; j <= m; j++ {
+			if !reach[i][j] {
+				continue
+			}
+			if i == n {
+				continue
+			}
+			if j < m && in[i] == out[j] {
+				reach[i+1][j+1] = true
+			}
+			if in[i] != '\\' {
+				continue
+			}
+			v, meaningful, ok := c.unitLike(in[i:])
+			if !ok {
+				continue
+			}
+			anyBytes := func(ni, lo, hi int) {
+				for k := lo; k <= hi && j+k <= m; k++ {
+					reach[ni][j+k] = true
+				}
+			}
+			exact := func(ni int, b []byte) {
+				if j+len(b) <= m && string(out[j:j+len(b)]) == string(b) {
+					reach[ni][j+len(b)] = true
+				}
+			}
+			switch {
+			case !c.unicode:
+				if meaningful && v <= 0xFF {
+					enc[0] = byte(v)
+					exact(i+w, enc[:1])
+				} else {
+					anyBytes(i+w, 1, 1)
+				}
+			case !meaningful || v > 0x10FFFF:
+				anyBytes(i+w, 1, 4)
+			case v >= 0xD800 && v < 0xE000:
+				anyBytes(i+w, 1, 4)
+				if c.name == "Utf16" && v < 0xDC00 {
+					if lo, mf, ok2 := c.unitLike(in[i+w:]); ok2 && mf && lo >= 0xDC00 && lo < 0xE000 {
+						k := utf8.EncodeRune(enc[:], rune(0x10000+(v-0xD800)<<10+(lo-0xDC00)))
+						exact(i+2*w, enc[:k])
+					}
+				}
+			default:
+				k := utf8.EncodeRune(enc[:], rune(v))
+				exact(i+w, enc[:k])
+			}
+		}
+	}
+	return reach[n][m]
+}
